@@ -321,6 +321,10 @@ pub enum Ev {
     /// answered (cancellation, or a provider that abandons its own re-entrant cache query).
     CandDropped(u32),
     DepsDropped(u32),
+    /// Brackets the moment at which the PROVIDER abandons re-entrant cache queries of its own
+    /// (`true` = begins, `false` = done): provider calls dropped in between were given up by the
+    /// provider, not by the solver.
+    ProviderDrops(bool),
     Filter(u32, bool),
     FilterRet(u32, bool),
     Sort(Vec<u32>),
